@@ -1,5 +1,7 @@
 import Lean.Meta.Tactic.Simp.RegisterCommand
 import AsherahVerif.Model.SecMem
-/-! simp set `secmem`: unfolds one memory-primitive call of the model (used by the `oracle_step`
-tactic of Proofs/SecMem.lean, which consumes the fault oracle one answer at a time). -/
+/-! simp sets of the secmem proofs: `secmem` evaluates one memory-primitive call of the model (used
+by the `oracle_step` tactic of Proofs/SecMem.lean, which consumes the fault oracle one answer at a
+time); `secmemchk` unfolds the Bool checkers once a path has been evaluated. -/
 register_simp_attr secmem
+register_simp_attr secmemchk
